@@ -267,10 +267,12 @@ Ltac rw_gen := rewrite ?gen_find_visible_ok, ?gen_version_before_ok, ?get_at_las
 
 Ltac tree2 := rw_gen; simp_bool; cbn [res_map]; first [leaf | (split_match; tree2) | (split_atom; tree2)].
 
+(* stated about the call in Compute ([_at]: what Compute passes, over variables named by type), so
+   that the parameter list of nextVersionIndex — the options, or only the threshold — does not matter *)
 Lemma gen_next_version_index_ok : forall cis current cl np o,
-  gen_next_version_index cis current cl np o = res_map Z.of_nat (next_version_index cis current cl np o).
+  gen_next_version_index_at cis current cl np o = res_map Z.of_nat (next_version_index cis current cl np o).
 Proof.
-  intros cis current cl np o. unfold gen_next_version_index, next_version_index.
+  intros cis current cl np o. unfold gen_next_version_index_at, gen_next_version_index, next_version_index.
   autounfold with genhelpers. cbv zeta.
   destruct np as [n|]; destruct current as [cur|]; tree2.
 Qed.
@@ -297,6 +299,12 @@ Qed.
 Lemma gen_default_threshold_ok : gen_default_threshold = 30 * 60 * 1000000000.
 Proof. reflexivity. Qed.
 
+(* The model runs the children one after the other.  The code reachable from core.Compute,
+   annotate.Ways, annotate.Relations must therefore contain nothing that runs concurrently (go
+   statements, channels, select, sync, sync/atomic): a sequential model cannot stand for it. *)
+Lemma gen_sequential_ok : gen_concurrent_constructs = 0.
+Proof. reflexivity. Qed.
+
 (* element reads X[i] outside the loops of the two list functions (none in the present source; a
    counting loop followed by cl[n-1] is such a read) are in range: the checked variants, in which
    such a read may fail, never do *)
@@ -318,7 +326,7 @@ Theorem generated_code_is_model :
   (forall cis cl cid at_ eps, gen_find_visible cis cl cid at_ eps = find_visible cis cl cid at_ eps) /\
   (forall cis cl end_, gen_version_before cis cl end_ = version_before cis cl end_) /\
   (forall cis current cl np o,
-     gen_next_version_index cis current cl np o = res_map Z.of_nat (next_version_index cis current cl np o)) /\
+     gen_next_version_index_at cis current cl np o = res_map Z.of_nat (next_version_index cis current cl np o)) /\
   (forall c r, gen_way_set_child c r = set_ref c r /\ gen_relation_set_child c r = set_ref c r) /\
   (forall filter r, gen_skip_ref (gen_way_annotated r) filter (r_id r) = filtered_out filter r /\
                     gen_skip_ref (gen_relation_annotated r) filter (r_id r) = filtered_out filter r) /\
